@@ -9,7 +9,7 @@ T = {
 "C06f": ("C06", "CompleteWorkflow on a PAUSED workflow with nothing parked resumes in memory and writes PAUSED -> final in one UPDATE. Needs a pause at the tail of a run.", "C06 quick: trans_pause_resume_diamond_fail", "caught as it stood"),
 "C07f": ("C07", "SignalStage's processed mark committed before the buffered-signal save, plus an already-processed guard: the losing save is never retried and the signal is dropped. Needs a task result committed between the signal handler's read and its save.", "C18 quick: race_signal_persistent", "flagged by C18's quick tier as it stood; C07's own lemmas do not see it (no write is overwritten)"),
 "C10f": ("C10", "before_stages_incomplete looks at first_before_stages() only. Needs chained / fan-in before-stages made by a builder and a sweep between the links.", "C10 quick: sweep_builder_fanin", "missed at first: builder_fanin added to the sweep explorations"),
-"C12f": ("C12", "stage events take workflow_id from the thread's event context and SkipStage no longer sets it. Needs two live executions interleaved in one database and a stage disabled by stageEnabled.", "not detected", "two concurrently live executions are outside the explored family (DESIGN section 8)"),
+"C12f": ("C12", "stage events take workflow_id from the thread's event context and SkipStage no longer sets it. Needs two live executions interleaved in one database and a stage disabled by stageEnabled.", "C12 quick: replay_twin_skip_mid, replay_twin_diamond_fail", "missed at first: a second live execution in the same database (twin) with symbolic interleaving; workload with a disabled stage"),
 "C13f": ("C13", "the event store bootstraps its schema per thread with executescript (implicit COMMIT) inside the joined transaction. Needs the first event append of a fresh worker thread to be a completion event, plus a fault or crash.", "C13 quick: event_fault_fresh_thread_tasks2/_diamond", "missed at first: the faulted step handled by a thread new to the database"),
 "C17f": ("C17", "cancel_execution only updates rows in NOT_STARTED / BUFFERED / RUNNING. Needs a cancel handled while the workflow is PAUSED.", "C17 quick: cancel_paused_tasks2, cancel_paused_rev_tasks2", "missed at first: pause, then unpause + cancel with reorderings; flag durability checked"),
 "C18f": ("C18", "ResumeStage pops _signal_name / _signal_data when it re-arms the parked task. Needs suspend, pause, signal consumed, task parked, unpause.", "C18 quick: signal_while_paused", "missed at first: pause + persistent signal before every step, unpause once the run is quiet"),
